@@ -11,6 +11,7 @@ import (
 	"crypto/sha512"
 	"crypto/x509"
 	"crypto/x509/pkix"
+	"encoding/asn1"
 	"encoding/pem"
 	"fmt"
 	"math/big"
@@ -31,21 +32,22 @@ import (
 
 // Material is the real cryptographic material behind the abstract classes.
 type Material struct {
-	R, S, E, E2, F, O *rsa.PrivateKey
-	RootCert          *x509.Certificate // R self-signed CA
-	SignCert          *x509.Certificate // S issued by R
-	SignCertPKCS1     *x509.Certificate // S issued by R with PKCS#1 v1.5 / SHA-256
-	SignCertPSS384    *x509.Certificate // S issued by R with RSA-PSS / SHA-384
-	ForeignCert       *x509.Certificate // F self-signed CA
-	EvilSelf          *x509.Certificate // E self-signed, same subject as SignCert
-	EvilCA            *x509.Certificate // E2 self-signed CA
-	EvilLeaf          *x509.Certificate // E issued by E2
-	SignNB, SignNA    time.Time
-	Quote             *tpb.QuoteV4
-	QuoteBytes        []byte // serialized tpm attestation carrying the quote
-	Mrtd              []byte
-	Vcek              *x509.Certificate
-	SnpNow            time.Time
+	R, S, E, E2, F, O                        *rsa.PrivateKey
+	RootCert                                 *x509.Certificate // R self-signed CA
+	SignCert                                 *x509.Certificate // S issued by R
+	SignCertPKCS1                            *x509.Certificate // S issued by R with PKCS#1 v1.5 / SHA-256
+	SignCertPSS384                           *x509.Certificate // S issued by R with RSA-PSS / SHA-384
+	ForeignCert                              *x509.Certificate // F self-signed CA
+	EvilSelf                                 *x509.Certificate // E self-signed, same subject as SignCert
+	EvilCA                                   *x509.Certificate // E2 self-signed CA
+	EvilLeaf                                 *x509.Certificate // E issued by E2
+	SignCertCrit, EvilSelfCrit, EvilLeafCrit *x509.Certificate // with an unknown critical extension
+	SignNB, SignNA                           time.Time
+	Quote                                    *tpb.QuoteV4
+	QuoteBytes                               []byte // serialized tpm attestation carrying the quote
+	Mrtd                                     []byte
+	Vcek                                     *x509.Certificate
+	SnpNow                                   time.Time
 }
 
 var (
@@ -138,6 +140,24 @@ func GetMaterial() (*Material, error) {
 			return
 		}
 		if m.EvilLeaf, err = mkCert(leafTpl(), m.EvilCA, &m.E.PublicKey, m.E2); err != nil {
+			matErr = err
+			return
+		}
+		// the same three certificates with a critical extension crypto/x509 does not know
+		crit := func(t *x509.Certificate) *x509.Certificate {
+			t.ExtraExtensions = []pkix.Extension{{Id: asn1.ObjectIdentifier{1, 3, 6, 1, 4, 1, 11129, 99, 7}, Critical: true, Value: []byte{0x05, 0x00}}}
+			return t
+		}
+		if m.SignCertCrit, err = mkCert(crit(leafTpl()), m.RootCert, &m.S.PublicKey, m.R); err != nil {
+			matErr = err
+			return
+		}
+		esc := crit(leafTpl())
+		if m.EvilSelfCrit, err = mkCert(esc, esc, &m.E.PublicKey, m.E); err != nil {
+			matErr = err
+			return
+		}
+		if m.EvilLeafCrit, err = mkCert(crit(leafTpl()), m.EvilCA, &m.E.PublicKey, m.E2); err != nil {
 			matErr = err
 			return
 		}
